@@ -358,7 +358,13 @@ def render(rng, w):
     """The text of a word; an RND atom becomes an arbitrary text (starts with r_, no slash / NUL / newline)."""
     def atom(a):
         if a == RND:
-            return "r_" + "".join(rng.choice(RND_CHARS) for _ in range(rng.randrange(1, 14)))
+            t = "r_" + "".join(rng.choice(RND_CHARS) for _ in range(rng.randrange(1, 14)))
+            if rng.random() < 0.35:
+                # characters that matter to the layers around the value: `=` (the --opt=value split), `$NAME` and backslashes
+                # (the word splitter of $FZF_DEFAULT_OPTS and the options file must not expand anything)
+                i = rng.randrange(2, len(t) + 1)
+                t = t[:i] + rng.choice(["=", "=b=c", "$a", "$HOME", "${a}", "\\t", "\\", "$"]) + t[i:]
+            return t
         return a
     v = "".join(atom(a) for a in w["v"])
     return {"opt": w["o"], "eq": w["o"] + "=" + v, "att": w["o"] + v, "val": v}[w["k"]]
